@@ -31,11 +31,13 @@ pub fn run(args: &[String]) {
     let mut rng = Rng::new(seed ^ 0xC11);
     let counts = [0, 1, 2, 3, 4, 5, 6, 6, 7, 8, 9, 10, 11, 12, 13, 14, 15, 16, 17, 31, 32, 33];
     let thresholds = [0.0, 0.0, 0.0, 1e-12, 1e-9, 1e-6, 1e-4, 1e-3, 1e-3, 1e-2, 1e-2, 3e-2, 0.5, 0.9999];
-    let syms = ["C", "H", "N", "O", "S", "Cl", "Br", "K", "B", "Li", "Si", "Mg", "F", "Na", "P", "Fe", "Cu", "Se"];
+    let syms = ["C", "H", "N", "O", "S", "Cl", "Br", "K", "B", "Li", "Si", "Mg", "F", "Na", "P", "Fe", "Cu", "Se", "Sm"];
     let mut id = 0;
     let mut fixed: Vec<(Vec<(String, u16, i32)>, f64)> = vec![
         (vec![], 0.0), (vec![("C".into(), 0, 2)], 0.9999), (vec![("C".into(), 0, 3), ("O".into(), 0, 4)], 0.001),
         (vec![("C".into(), 0, 0)], 0.0), (vec![("Cl".into(), 0, 2), ("Br".into(), 0, 1)], 0.0),
+        // samarium: two different isotopologues of Sm2 (150+150 and 148+152) lie 5e-6 Da apart -- distinct peaks, each with its own share
+        (vec![("Sm".into(), 0, 2)], 0.0), (vec![("Sm".into(), 0, 2)], 1e-3), (vec![("Sm".into(), 0, 3), ("C".into(), 0, 1)], 1e-4),
         // a leading element whose every arrangement falls below the threshold, followed by more elements:
         // nothing may come back (an emptied accumulator must stay empty)
         (vec![("Br".into(), 0, 3), ("H".into(), 0, 2)], 0.5), (vec![("Cl".into(), 0, 4), ("C".into(), 0, 2), ("H".into(), 0, 1)], 0.9999),
